@@ -77,6 +77,10 @@ inductive PStep where
   | appendManifest (recs : List Rec)
   | createTmp | appendTmp (recs : List Rec) | renameTmp
   | rmdir (t r : Nat)
+  /-- boot-time unlink of a delete-vector file the manifest does not name (/repo 36211f7) -/
+  | rmdv (t r d : Nat)
+  /-- fsync of the database directory after the rename (/repo 96ec538): the rename is durable -/
+  | syncDir
   deriving Repr, DecidableEq, BEq
 
 /-- How far a write got.  `full`: the step completed.  For record files: `recs c torn` = `c`
@@ -125,6 +129,8 @@ def Disk.apply (d : Disk) (s : PStep) (p : Progress) : Disk :=
     | some (rs, torn) => { d with recs := rs, torn := torn, tmp := none, shadow := some d.recs }
     | none => d
   | .rmdir t r => { d with rowsets := d.rowsets.filter fun x => !(x.t == t && x.r == r) }
+  | .rmdv t r dv => { d with dvfiles := d.dvfiles.filter fun x => !(x.t == t && x.r == r && x.d == dv) }
+  | .syncDir => { d with shadow := none }
 
 def Disk.applyAll (d : Disk) (steps : List PStep) : Disk := steps.foldl (fun d s => d.apply s .full) d
 
@@ -207,8 +213,9 @@ def filesOk (d : Disk) (v : View) : Bool :=
 
 /-- What `bootstrap` loads from a directory, or why `open` fails. -/
 def view (d : Disk) : Except String View :=
-  if d.torn then .error "json-eof"
-  else match View.empty.applyRecs (replay d.recs) with
+  -- (since /repo bceddd9 an incomplete record at the end of the file is ignored: `d.torn` plays no
+  -- role; before, `if d.torn then .error "json-eof"`)
+  match View.empty.applyRecs (replay d.recs) with
     | .error e => .error e
     | .ok v =>
       if filesOk d v then .ok v
@@ -249,12 +256,14 @@ def rewriteRecs (v : View) : List Rec :=
     v.dvs.map (fun x => Rec.addDV x.1 x.2.1 x.2.2) ++ v.tableLog ++ [Rec.fin]
 
 def orphans (d : Disk) (v : View) : List RowsetDir := d.rowsets.filter fun x => !v.rowsets.contains (x.t, x.r)
+def orphanDvs (d : Disk) (v : View) : List DvFile := d.dvfiles.filter fun x => !v.dvs.contains (x.t, x.r, x.d)
 
 def recoverSteps (d : Disk) (v : View) : List PStep :=
   (if d.boot < 1 then [PStep.mkdirDb] else []) ++ (if d.boot < 2 then [PStep.mkdirDv] else []) ++
   (if d.boot < 3 then [PStep.createManifest] else []) ++
   (orphans d v).map (fun x => PStep.rmdir x.t x.r) ++
-  [PStep.createTmp, PStep.appendTmp (rewriteRecs v), PStep.renameTmp]
+  (orphanDvs d v).map (fun x => PStep.rmdv x.t x.r x.d) ++
+  [PStep.createTmp, PStep.appendTmp (rewriteRecs v), PStep.renameTmp, PStep.syncDir]
 
 structure State where
   disk : Disk
